@@ -37,6 +37,8 @@ type vClientKeeper struct {
 	created    []string
 	nextId     int
 	failCreate bool
+	failOnCall int // when > 0: only the failOnCall-th CreateClient call fails
+	calls      int
 	notTm      map[string]bool
 }
 
@@ -49,7 +51,8 @@ func (c *vClientKeeper) GetClientState(ctx sdk.Context, clientID string) (ibcexp
 }
 
 func (c *vClientKeeper) CreateClient(ctx sdk.Context, clientType string, clientState, consensusState []byte) (string, error) {
-	if c.failCreate {
+	c.calls++
+	if c.failCreate || (c.failOnCall > 0 && c.calls == c.failOnCall) {
 		return "", clienttypes.ErrInvalidClientType
 	}
 	id := "07-tendermint-9"
